@@ -3167,6 +3167,12 @@ namespace bloch::runtime {
                                 ErrorCategory::Runtime, callExpr->line, callExpr->column,
                                 "instance method '" + name + "' requires an object receiver");
                         }
+                        // 'm()' is 'this.m()': a virtual method dispatches on the object's class
+                        if (method->isVirtual && receiver->cls) {
+                            auto vit = receiver->cls->vtable.find(method->signature);
+                            if (vit != receiver->cls->vtable.end())
+                                method = vit->second;
+                        }
                     }
                     return callMethod(method, staticCls, receiver, args);
                 }
